@@ -36,6 +36,13 @@ def classify(pid, report, eng, ops):
             if any(name in text for name in sd):
                 return pid + '-UNLOADED-SEED-REVERSE-NOT-MAINTAINED'
 
+    # --- walker / read reports right after a failed call whose failure is the known cascade-cycle mechanism
+    fc = det.get('after_failed_call')
+    if fc and mon != 'atomic':
+        if fc.get('exc') in ('RecursionError', 'OperationWithDeletedObjectError', 'AssertionError') and \
+                (fc.get('cascade_cycle') or fc.get('model_expected_refusal') == 'deleted' or fc.get('exc') == 'RecursionError'):
+            return pid + '-CASCADE-CYCLE-FAILS-MIDWAY'
+
     # --- atomicity mechanisms (C13), identified by failing operation + exception + differing component
     if mon == 'atomic':
         mech = det.get('mechanism', '')
